@@ -237,6 +237,51 @@ fn main() {
                 }
             }
         }
+        "miri-slice" => {
+            // advisory sanitizer pass (DESIGN.md 7): a small slice of the workloads, meant to be
+            // run under `cargo +nightly miri run`. No file system, no subprocesses, no clock.
+            let n_prog: u64 = args.get(2).and_then(|s| s.parse().ok()).unwrap_or(6);
+            let n_str: u64 = args.get(3).and_then(|s| s.parse().ok()).unwrap_or(120);
+            let mut panics = 0u64;
+            let mut ok = 0u64;
+            use rand::SeedableRng;
+            for i in 0..n_str {
+                let mut rng = rand_chacha::ChaCha8Rng::seed_from_u64(i);
+                let s = mon::c15::random_input(&mut rng);
+                match std::panic::catch_unwind(|| scale_typegen_description::format_type_description(&s)) {
+                    Ok(_) => ok += 1,
+                    Err(_) => panics += 1,
+                }
+            }
+            for k in 0..n_prog {
+                let mut rng = rand_chacha::ChaCha8Rng::seed_from_u64(1000 + k);
+                let mut cfg = prog::GenCfg::default();
+                cfg.max_defs = 3;
+                cfg.max_fields = 3;
+                cfg.max_insts = 2;
+                let p = prog::ProgGen::new(&mut rng, cfg).gen_program();
+                let out = sim::simulate(&p);
+                let d = sdesc::SDesc::default();
+                let settings = d.build();
+                let r = std::panic::catch_unwind(std::panic::AssertUnwindSafe(|| {
+                    let mut r2 = out.registry.clone();
+                    let _ = scale_typegen::utils::ensure_unique_type_paths(&mut r2);
+                    let g = scale_typegen::TypeGenerator::new(&r2, &settings);
+                    use scale_typegen::typegen::ir::ToTokensWithSettings;
+                    let _ = g.generate_types_mod().map(|m| m.to_token_stream(&settings).to_string().len());
+                    for t in &r2.types {
+                        let _ = scale_typegen_description::type_description(t.id, &r2, true);
+                        let _ = scale_typegen_description::scale_value_from_seed(t.id, &r2, 3);
+                        let _ = scale_typegen_description::rust_value_from_seed(t.id, &r2, &settings, 3, None, None);
+                    }
+                }));
+                match r {
+                    Ok(_) => ok += 1,
+                    Err(_) => panics += 1,
+                }
+            }
+            println!("MIRI-SLICE ok={ok} panics={panics}");
+        }
         "warm" => {
             // setup aid: build the artifact dependencies once per target-dir slot
             for slot in 0..4usize {
